@@ -63,12 +63,14 @@ def is_other_write(n, name):
 
 
 class Checker:
-    def __init__(self, prop, rel, fname, repo, inline=True):
-        self.rel, self.fname = rel, fname
+    def __init__(self, prop, rel, fname, repo, inline=True, real=None):
+        self.rel, self.fname = rel, fname           # fname: the name used in obligation ids; real: the function found by role after a rename
         self.mod = loader.module(rel, repo)
-        self.raw_fn = self.mod.functions.get(fname)
+        real = real or fname
+        self.real = real
+        self.raw_fn = self.mod.functions.get(real)
         # small private helpers of the module are inlined (AST level), so that the analyses follow the data flow through them
-        self.fn, self.inlined_helpers = inline_helpers(self.mod, fname) if (inline and self.raw_fn is not None) else (self.raw_fn, [])
+        self.fn, self.inlined_helpers = inline_helpers(self.mod, real) if (inline and self.raw_fn is not None) else (self.raw_fn, [])
         self.short = rel.split("/")[-1]
         self.obls = []
         self.total = set()      # names of repo functions proved not to raise (sniffers) / dataclass constructors
